@@ -4,6 +4,7 @@ import (
 	"fmt"
 	"go/token"
 	"go/types"
+	"math"
 	"regexp"
 	"regexp/syntax"
 	"strconv"
@@ -401,7 +402,11 @@ func ruleDeclaredSizes(p *Prog, r *Report) {
 		}
 		var cases []sizeCase
 		for _, c := range []sizeCase{{"[5]", 5, 5}, {"[0]", 0, 0}, {"[12]", 12, 12}, {"[2..7]", 2, 7}, {"[12..345]", 12, 345}, {"[2..]", 2, -1}, {"[..7]", 0, 7},
-			{"[010]", 10, 10}, {"[08..09]", 8, 9}, {"[7..2]", 7, 2}} {
+			{"[010]", 10, 10}, {"[08..09]", 8, 9}, {"[7..2]", 7, 2},
+			// a bound too large for an int is clamped to the largest one (no item has
+			// that size, so the size check reports it), never dropped
+			{"[99999999999999999999]", math.MaxInt64, math.MaxInt64}, {"[99999999999999999999..]", math.MaxInt64, -1},
+			{"[2..99999999999999999999]", 2, math.MaxInt64}, {"[99999999999999999999..7]", math.MaxInt64, 7}} {
 			cases = append(cases, sizeCase{c.text, c.min, c.max})
 		}
 		// and around every integer constant of the reader's own code
